@@ -45,7 +45,7 @@ func (c *componentOffset) SetComponentTag(value byte) {
 
 // SetPTSOffset sets the PTS offset of the component.
 func (c *componentOffset) SetPTSOffset(value gots.PTS) {
-	c.ptsOffset = value
+	c.ptsOffset = value & 0x01ffffffff // 33 bit field
 }
 
 // CreateSegmentationDescriptor creates and returns a default
